@@ -445,6 +445,11 @@ func (svr *Server) handleConnection(c io.Closer) (svc *service, err error) {
 	resp.SetReturnCode(message.ConnectionAccepted)
 
 	if err = writeMessage(c, resp); err != nil {
+		// The connection ends here, before a service exists whose stop() would
+		// discard a clean session.
+		if req.CleanSession() {
+			svr.sessMgr.Del(svc.sess.ID())
+		}
 		return nil, err
 	}
 
